@@ -78,9 +78,32 @@ def c18_queries_take_shared_ref():
             "failures": [] if ok else [{"msg": "query trait method does not take &self: %s" % bad, "source": bad[0], "text": str(bad)}]}
 
 
+def c09_pfs_contract_text():
+    """the contract of PrefetchSupport that the quad-tree unit assumes (external_body block in contracts/inc/qwt_core.vrs)
+    is, clause for clause, the contract the unit `prefetch` proves of the real functions (contracts/inc/prefetch_core.vrs):
+    the marked regions are compared after removing comment markers and whitespace"""
+    verif = os.path.dirname(os.path.dirname(os.path.abspath(__file__)))
+
+    def regions(path):
+        txt = open(os.path.join(verif, path)).read()
+        out = {}
+        for m in re.finditer(r"// \[pfs-contract (\w+)\]\n(.*?)// \[pfs-end\]", txt, re.S):
+            body = re.sub(r"^\s*//@", "", m.group(2), flags=re.M)
+            out[m.group(1)] = re.sub(r"\s+", "", body).rstrip(",")
+        return out
+    a = regions("contracts/inc/qwt_core.vrs")
+    b = regions("contracts/inc/prefetch_core.vrs")
+    names = ["new", "approx_rank_unchecked", "vx_approx_mono"]
+    bad = [n for n in names if n not in a or n not in b or a[n] != b[n]]
+    ok = not bad
+    return {"id": "static:c09:pfs-contract-text", "engine": "scan", "kind": "proved", "ok": ok,
+            "function": "PrefetchSupport::{new, approx_rank_unchecked} (assumed in unit qwt_* = proved in unit prefetch)",
+            "file": "contracts/inc/qwt_core.vrs", "failures": [] if ok else [{"msg": "assumed and proved contract texts differ for: %s" % bad, "source": ""}]}
+
+
 def for_property(prop):
     if prop == "C09":
-        return [c09_cfg_sites()]
+        return [c09_cfg_sites(), c09_pfs_contract_text()]
     if prop == "C18":
         return [c18_no_interior_mutability(), c18_queries_take_shared_ref()]
     return []
